@@ -27,34 +27,34 @@ PROPS = ['C%02d' % i for i in range(1, 21)]
 
 # scenario plan: property -> tier -> [(family, count or None)]
 PLAN = {
-    'C01': {'quick': [('nest', 500), ('redispatch', None), ('await_pos', 192), ('errors', 120), ('recursion', None), ('fwd3', 150), ('hist_rand', 120), ('timeout', None), ('late_on', None), ('timeout_stray', None)],
-            'thorough': [('nest', 12000), ('late_on', None), ('timeout_stray', None), ('redispatch', None), ('await_pos', None), ('errors', None), ('recursion', None), ('fwd3', None), ('fwd', 2000), ('hist_rand', 3000), ('timeout', None), ('timeout_rand', 2000)]},
+    'C01': {'quick': [('nest', 500), ('redispatch', None), ('await_pos', 192), ('errors', 120), ('recursion', None), ('fwd3', 150), ('hist_rand', 120), ('timeout', None), ('late_on', None), ('timeout_stray', None), ('redispatch_evict', None)],
+            'thorough': [('nest', 12000), ('late_on', None), ('timeout_stray', None), ('redispatch_evict', None), ('redispatch', None), ('await_pos', None), ('errors', None), ('recursion', None), ('fwd3', None), ('fwd', 2000), ('hist_rand', 3000), ('timeout', None), ('timeout_rand', 2000)]},
     'C02': {'quick': [('nest', 500), ('await_pos', None), ('fwd3', 200), ('firstuse', None), ('life', 150), ('cancel_cleanup', None), ('gather_await', 96), ('idle_in_handler', None)],
             'thorough': [('nest', 12000), ('await_pos', None), ('fwd3', None), ('fwd', 3000), ('firstuse', None), ('life', None), ('hist_rand', 2000), ('cancel_cleanup', None), ('idle_in_handler', None), ('gather_await', None)]},
     'C03': {'quick': [('nest', 500), ('await_pos', 192), ('recursion', None), ('errors', 120), ('fwd3', 150), ('hist', 150), ('par_timeout', 72), ('timeout_stray', None), ('timeout_rand', 100)],
             'thorough': [('nest', 12000), ('await_pos', None), ('recursion', None), ('errors', None), ('fwd3', None), ('fwd', 2000), ('hist', None), ('hist_rand', 3000), ('timeout_rand', 2000), ('par_timeout', None), ('timeout_par_rand', 2000), ('timeout_stray', None)]},
-    'C04': {'quick': [('await_pos', None), ('nest', 500), ('firstuse', None), ('fwd', 150), ('deep_timeout', None), ('await_after_stop', None), ('idle_target', None), ('gather_await', None)],
-            'thorough': [('await_pos', None), ('nest', 15000), ('firstuse', None), ('fwd', 3000), ('hist_rand', 2000), ('timeout_rand', 2000), ('await_after_stop', None), ('idle_target', None), ('gather_await', None)]},
+    'C04': {'quick': [('await_pos', None), ('nest', 500), ('firstuse', None), ('fwd', 150), ('deep_timeout', None), ('await_after_stop', None), ('idle_target', None), ('gather_await', None), ('timeout_stray', None)],
+            'thorough': [('await_pos', None), ('nest', 15000), ('firstuse', None), ('fwd', 3000), ('hist_rand', 2000), ('timeout_rand', 2000), ('await_after_stop', None), ('idle_target', None), ('gather_await', None), ('timeout_stray', None)]},
     'C05': {'quick': [('await_pos', None), ('nest', 500), ('firstuse', None), ('timeout', None), ('deep_timeout', None), ('hist_rand', 150), ('lock_wait', None), ('idle_target', None)],
             'thorough': [('await_pos', None), ('nest', 15000), ('firstuse', None), ('fwd', 3000), ('life', None), ('hist_rand', 2000), ('timeout', None), ('timeout_rand', 3000), ('lock_wait', None), ('idle_target', None)]},
     'C06': {'quick': [('firstuse', None), ('nest', 500), ('idle_par', None), ('errors_par', None), ('await_pos', 192), ('fwd3', 150), ('life', 150), ('lock_wait', None), ('cancel_cleanup', None), ('gather_await', 96), ('par_held', None)],
             'thorough': [('firstuse', None), ('nest', 15000), ('par_held', None), ('gather_await', None), ('idle_par', None), ('errors_par', None), ('await_pos', None), ('fwd3', None), ('fwd', 3000), ('life', None), ('timeout_rand', 2000), ('lock_wait', None), ('cancel_cleanup', None)]},
     'C07': {'quick': [('fwd3', None), ('fwd_deep', None), ('fwd', 300)],
             'thorough': [('fwd3', None), ('fwd_deep', None), ('fwd', 12000)]},
-    'C08': {'quick': [('fwd3', 768), ('fwd', 300), ('nest', 300), ('errors', 100), ('timeout', 300), ('timeout_rand', 200), ('par_timeout', None), ('fwd_timeout', 400)],
-            'thorough': [('fwd3', None), ('fwd', 8000), ('nest', 6000), ('errors', None), ('timeout', None), ('timeout_rand', 4000), ('par_timeout', None), ('timeout_par_rand', 3000), ('fwd_timeout', 4000)]},
-    'C09': {'quick': [('nest', 500), ('fwd3', 500), ('fwd', 300), ('firstuse', None), ('errors', 100)],
-            'thorough': [('nest', 12000), ('fwd3', None), ('fwd', 6000), ('firstuse', None), ('errors', None), ('await_pos', None)]},
+    'C08': {'quick': [('fwd3', 768), ('fwd', 300), ('nest', 300), ('errors', 100), ('timeout', 300), ('timeout_rand', 200), ('par_timeout', None), ('fwd_timeout', 400), ('hist', 150), ('hist_rand', 150), ('redispatch_evict', None)],
+            'thorough': [('fwd3', None), ('fwd', 8000), ('nest', 6000), ('errors', None), ('timeout', None), ('timeout_rand', 4000), ('par_timeout', None), ('timeout_par_rand', 3000), ('fwd_timeout', 4000), ('hist', None), ('hist_rand', 3000), ('redispatch_evict', None)]},
+    'C09': {'quick': [('nest', 500), ('fwd3', 500), ('fwd', 300), ('firstuse', None), ('errors', 100), ('redispatch', None)],
+            'thorough': [('nest', 12000), ('fwd3', None), ('fwd', 6000), ('firstuse', None), ('errors', None), ('await_pos', None), ('redispatch', None)]},
     'C10': {'quick': [('timeout', None), ('deep_timeout', None), ('timeout_rand', 400), ('par_timeout', None), ('timeout_par_rand', 200), ('timeout_stray', None), ('cancel_cleanup', None), ('fwd_timeout', 200), ('retry_handler', None)],
             'thorough': [('timeout', None), ('deep_timeout', None), ('timeout_rand', 12000), ('par_timeout', None), ('timeout_par_rand', 6000), ('timeout_stray', None), ('cancel_cleanup', None), ('fwd_timeout', 3000), ('retry_handler', None)]},
     'C11': {'quick': [('errors', None), ('errors_par', None), ('nest', 300)],
             'thorough': [('errors', None), ('errors_par', None), ('nest', 10000), ('timeout_rand', 2000)]},
-    'C13': {'quick': [('hist', None), ('hist_rand', 400), ('capacity', 24), ('hist_fwd', None)],
-            'thorough': [('hist', None), ('hist_rand', 10000), ('capacity', None), ('hist_fwd', None)]},
+    'C13': {'quick': [('hist', None), ('hist_rand', 400), ('capacity', 24), ('hist_fwd', None), ('hist_nohandler', None)],
+            'thorough': [('hist', None), ('hist_rand', 10000), ('capacity', None), ('hist_fwd', None), ('hist_nohandler', None)]},
     'C14': {'quick': [('capacity', None), ('retry_dispatch', None), ('hist', 200), ('life', 200), ('capacity_fwd', None)],
             'thorough': [('capacity', None), ('retry_dispatch', None), ('hist', None), ('hist_rand', 4000), ('life', None), ('life_rand', 3000), ('capacity_fwd', None)]},
-    'C15': {'quick': [('life', None), ('idle_par', None), ('life_rand', 400), ('fwd', 200), ('timeout', 100), ('par_timeout', 72), ('idle_evict', None)],
-            'thorough': [('life', None), ('idle_par', None), ('life_rand', 10000), ('fwd', 3000), ('timeout', None), ('nest', 4000), ('hist_rand', 2000), ('par_timeout', None), ('timeout_par_rand', 2000), ('idle_evict', None)]},
+    'C15': {'quick': [('life', None), ('idle_par', None), ('life_rand', 400), ('fwd', 200), ('timeout', 100), ('par_timeout', 72), ('idle_evict', None), ('fwd_idle', 300), ('idle_forward_lock', None)],
+            'thorough': [('life', None), ('idle_par', None), ('life_rand', 10000), ('fwd', 3000), ('timeout', None), ('nest', 4000), ('hist_rand', 2000), ('par_timeout', None), ('timeout_par_rand', 2000), ('idle_evict', None), ('fwd_idle', 4000), ('idle_forward_lock', None)]},
     'C16': {'quick': [('life', None), ('life_rand', 400), ('stop_in_handler', None), ('stop_clear', None)],
             'thorough': [('life', None), ('life_rand', 15000), ('stop_in_handler', None), ('stop_clear', None)]},
     'C17': {'quick': [('wal', 1200)],
